@@ -383,7 +383,7 @@ def case(arg):
 
 def run(ctx):
     quick = ctx.tier == "quick"
-    n = 96 if quick else 1500
+    n = 96 if quick else 640
     per = 6 if quick else 30
     args = [{"seed": ctx.seed, "start": s, "count": min(per, n - s), "nconfigs": 2 if quick else 6} for s in range(0, n, per)]
     res = common.run_cases("c07", "case", args, timeout=3000)
